@@ -59,6 +59,7 @@ type Contract struct {
 	Pure       bool
 	Prune      bool // drop branches whose path condition the solver refutes quickly
 	Impls      bool // abstract interface-method contract: every implementation in the loaded packages that has no contract of its own is verified against it
+	RecvName   string // receiver name used by the clauses (header `func (e *T).M(..)`); bound by position
 	Aliases    []string // extra name per parameter (an implementation checked against an interface contract: self, then the interface's parameter names)
 	Unfold     []string
 	Line       int
@@ -251,6 +252,11 @@ func ParseContracts(pkgPath, path, src string) (*ContractFile, error) {
 			c := &Contract{Pkg: pkgPath, Loops: map[int]*LoopSpec{}, Line: ll.line, File: path}
 			// forms: func (*T).M(p1, p2) (r1, r2)  |  func Name(p) (r) | func (*T).M
 			hdr := rest
+			// optional receiver name: func (e *Engine).send(...) / func (e Event).Log()
+			if m := regexp.MustCompile(`^\((\w+) (\*?[\w.]+)\)\.`).FindStringSubmatch(hdr); m != nil {
+				c.RecvName = m[1]
+				hdr = "(" + m[2] + ")." + hdr[len(m[0]):]
+			}
 			key := hdr
 			// find parameter list: the first '(' that follows the name part
 			nameEnd := len(hdr)
@@ -281,9 +287,15 @@ func ParseContracts(pkgPath, path, src string) (*ContractFile, error) {
 				if strings.HasPrefix(tail, "(") {
 					j := strings.Index(tail, ")")
 					c.ResNames = splitComma(tail[1:j])
+					tail = strings.TrimSpace(tail[j+1:])
 				}
 			}
 			c.Key = key
+			// "func F(..) in G": the contract (loop invariants of an inlined callee)
+			// applies only while G is the function under verification
+			if strings.HasPrefix(tail, "in ") {
+				c.Key = key + " in " + strings.TrimSpace(tail[3:])
+			}
 			if kw == "functype" {
 				c.Key = "functype " + key
 				c.Abstract = true
